@@ -292,3 +292,46 @@ PROPS["C12"] = {
                                   "spki_bad_point", "spki_identity", "spki_params", "spki_bad", "random_bytes"]},
     "assumptions": ["full-size byte strings are enumerated per structural class and sampled at random; all strings are enumerated only at miniature width"],
 }
+
+_SCHNORR_A = [
+    {"spec": "MC_Schnorr", "params": "mini43"},
+    {"spec": "MC_Schnorr", "params": "mini211", "tiers": ("thorough",), "timeout": 7200},
+]
+_SCHNORR_MC = ("Schnorr.tla transcribes BIP-340 (lift_x, Verify, Sign with the default nonce derivation, tagged hashes defined over a SHA-256 primitive). "
+               "TLC checks on miniature curves, with the challenge ranging over ALL of Z_n, that for ALL x-only keys (liftable or not, below or above p), ALL r "
+               "(every one-byte value, so r >= p occurs) and ALL s in [0, n+4) verification accepts exactly when some nonce with even-y R, x(R) = r gives "
+               "s = k + e d; that lift_x accepts exactly on-curve x < p; and that for ALL (d', k', e) the signing algebra negates d and k exactly by the "
+               "parities of P and R and yields a signature that verifies. ")
+
+PROPS["C13"] = {
+    "title": "BIP-340 verification accepts exactly what the BIP-340 algorithm accepts",
+    "level": "model_checking",
+    "level_text": _SCHNORR_MC + "The real NewSchnorrPublicKey / Verify are bound by trace validation at full size: TLC recomputes the tagged challenge hash and the "
+                  "whole Verify algorithm on the logged key, message and signature for honest signatures over message lengths {0,1,31,32,33,64,65,1000}, "
+                  "r in {p-1, p, p+1, 2^256-1, 0}, s in {n-1, n, n+1, 0, 2^256-1}, constructed odd-y R (un-negated nonce), constructed R = infinity (s = e d), "
+                  "bit flips, message truncation/extension, signature lengths 0/63/65, keys not on the curve / >= p / +p aliases / wrong lengths, and the "
+                  "official vector file re-driven.",
+    "level_note": "trusted: TLC, BigInt/EcMul/SHA-256 overrides (self-tested), harness logging; the tagged-hash accessor is used only to steer inputs",
+    "exhaustive": _SCHNORR_A,
+    "drivers": [{"driver": "schnorr", "trace": "Trace_Schnorr"}],
+    "require_classes": {"quick": ["pk_ok", "pk_not_on_curve", "pk_ge_p", "pk_bad_len", "vfy_accept", "vfy_reject", "r_ge_p", "s_ge_n", "s_zero",
+                                  "R_odd_y", "R_inf", "x_mismatch", "msg_len_0", "msg_len_odd", "msg_len_long", "sig_bad_len", "vector"]},
+    "assumptions": ["full-size inputs are constructed per corner class and decided by an exact oracle"],
+}
+
+PROPS["C14"] = {
+    "title": "BIP-340 signing is the specified function of (key, aux randomness, message)",
+    "level": "model_checking",
+    "level_text": _SCHNORR_MC + "The real signSchnorr (deep, chosen aux) and the public Sign (scripted entropy reader) are bound by trace validation: the logged signature "
+                  "must equal Schnorr!SignB(sk, m, aux) byte for byte (TLC evaluates the aux/nonce/challenge tagged hashes itself) and verify; all four "
+                  "(P parity x R parity) cases, aux in {0, ff, random}, all message lengths, d' in {1, n-1, random}; a failing reader gives no signature; the "
+                  "self-verification shortcut agrees with Verify on valid and corrupted signatures; keys derived from ECDSA keys and from points (odd / even y, "
+                  "other representatives, identity refused) expose the even-y point, its x and a signing scalar d with d*G = that point.",
+    "level_note": "trusted: TLC, BigInt/EcMul/SHA-256 overrides (self-tested), verif accessors (signSchnorr, d)",
+    "exhaustive": _SCHNORR_A,
+    "drivers": [{"driver": "schnorr", "trace": "Trace_Schnorr"}],
+    "require_classes": {"quick": ["sign_P_even_R_even", "sign_P_even_R_odd", "sign_P_odd_R_even", "sign_P_odd_R_odd", "aux_zero", "aux_ones",
+                                  "sign_public_api", "sign_reader_fail", "from_point_odd", "from_point_even", "from_point_inf", "from_point_altrep",
+                                  "from_ecdsa", "self_verify", "msg_len_0", "msg_len_odd", "msg_len_long", "vector"]},
+    "assumptions": ["k' = 0 (a 2^-256 event) is covered only by the model"],
+}
